@@ -121,10 +121,14 @@ Mutate(e, m) ==
 VARIABLES phase, n, k, m
 vars == <<phase, n, k, m>>
 
-Init == /\ phase \in {"enc", "dec"}
-        /\ \/ (phase = "enc" /\ n \in EncLens /\ k \in Kinds /\ m = "none")
-           \/ (phase = "dec" /\ n \in DecBases /\ k \in {"count", "zero"} /\ m \in Mutations)
-Next == UNCHANGED vars
+(* One initial state; choosing the case is a step, so that TLC's workers    *)
+(* evaluate the cases (and their laws) in parallel.                         *)
+Init == phase = "start" /\ n = 0 /\ k = "zero" /\ m = "none"
+Pick == /\ phase = "start"
+        /\ phase' \in {"enc", "dec"}
+        /\ \/ (phase' = "enc" /\ n' \in EncLens /\ k' \in Kinds /\ m' = "none")
+           \/ (phase' = "dec" /\ n' \in DecBases /\ k' \in {"count", "zero"} /\ m' \in Mutations)
+Next == Pick
 Spec == Init /\ [][Next]_vars
 
 In == Pattern(k, n)
@@ -140,7 +144,7 @@ TickSame == (phase = "dec" /\ m = "tick") => Dec(DecIn) = Dec(IF E = <<>> THEN <
 CRLFSame == (phase = "dec" /\ m = "crlf") => Dec(DecIn) = Dec(IF E = <<>> THEN <<96, 10>> ELSE E)
 
 EmitCase ==
-  \/ ~Emit
+  \/ ~Emit \/ phase = "start"
   \/ IF phase = "enc"
      THEN PrintT(<<"CASE", ToJson([phase |-> "enc", kind |-> k, n |-> n, input |-> In, enc |-> E,
                                    maxenc |-> MaxEncodedLen(n), maxdec |-> MaxDecodedLen(Len(E))])>>)
